@@ -101,6 +101,47 @@ def rule_own(ctx):
             if ci.name != 'OutputProxy':
                 ctx.ob('C20.own', f'{f.fq}:none-guard', 'if self._synthdef is not None:' in src, 'outside a build the unit belongs to no definition', f.node, ci.module)
     ctx.require(n >= 3, 'C20.own', f'only {n} _add_to_synth variants')
+    # per-definition containers are created per instance: a mutable class attribute that instances append to is one object
+    # shared by every definition of the process (units of one build leak into all later builds)
+    MUT_CALLS = {'append', 'add', 'extend', 'insert', 'update', 'setdefault', 'remove', 'discard', 'pop', 'clear'}
+    k = 0
+    for cfq in ('sc3.synth.synthdef:SynthDef', 'sc3.synth.synthdesc:SynthDesc', 'sc3.synth.ugen:SynthObject', 'sc3.synth.ugen:UGen'):
+        ci = ctx.repo.cls(cfq)
+        subs = [ci] + ctx.repo.subclasses(ci, strict=True)
+        for name, val in ci.class_assigns.items():
+            mutable = isinstance(val, (ast.List, ast.Dict, ast.Set)) or \
+                (isinstance(val, ast.Call) and norm(val.func) in ('list', 'dict', 'set', 'collections.deque', 'deque'))
+            if not mutable:
+                continue
+            k += 1
+            mutated = []
+            for c2 in subs:
+                for f in c2.methods.values():
+                    for c in U.calls(f.node):
+                        if isinstance(c.func, ast.Attribute) and c.func.attr in MUT_CALLS and isinstance(c.func.value, ast.Attribute) \
+                                and c.func.value.attr == name and norm(c.func.value.value) in ('self', 'obj', 'cls'):
+                            mutated.append(f'{f.qualname}: {norm(c)[:50]}')
+                    for st in walk_local(f.node):
+                        if isinstance(st, (ast.Assign, ast.AugAssign, ast.Delete)):
+                            for t in (U.assigned_targets(st) if not isinstance(st, ast.Delete) else st.targets):
+                                if isinstance(t, ast.Subscript) and isinstance(t.value, ast.Attribute) and t.value.attr == name \
+                                        and norm(t.value.value) in ('self', 'obj'):
+                                    mutated.append(f'{f.qualname}: {norm(st)[:50]}')
+            rebound = any(isinstance(st, ast.Assign) and any(isinstance(t, ast.Attribute) and t.attr == name and norm(t.value) in ('self', 'obj')
+                                                             for t in st.targets)
+                          for f in ci.methods.values() if f.name in ('__init__', '_dummy', '_init_build', '__new__', '_create_ugen_object')
+                          for st in walk_local(f.node))
+            ctx.ob('C20.own', f'{ci.fq}:{name}:class-level-container', not mutated or rebound,
+                   f'{ci.name}.{name} = {norm(val)} is a mutable class attribute changed in place through instances ({mutated[:3]}) and never '
+                   f'rebound per instance: all definitions share one container, so one build leaves residue in the next', val, ci.module)
+    ctx.extra['class_level_containers_checked'] = k
+    sdc = ctx.repo.cls('sc3.synth.synthdef:SynthDef')
+    for fn in ('__init__', '_dummy'):
+        f = sdc.methods[fn]
+        src = full(f.node)
+        recv = 'self' if fn == '__init__' else 'obj'
+        ok = all(f'{recv}.{a} = []' in src for a in ('_available', '_width_first_ugens'))
+        ctx.ob('C20.own', f'{f.fq}:fresh-topo-state', ok, 'each definition object gets its own _available and _width_first_ugens lists', f.node, f.module)
     # reads of the context elsewhere only inside functions that run during a build
     ib = ctx.repo.func('sc3.synth.synthdef:SynthDef._init_build')
     src = full(ib.node)
@@ -212,6 +253,10 @@ def run(ctx):
 
 
 MUTANTS = [
+    dict(rule='C20.own', name='topo-sort lists become class-level defaults shared by all definitions (seed C20-c)', file='sc3/synth/synthdef.py',
+         edits=[('sc3/synth/synthdef.py', "        # topo sort\n        self._available = []\n        self._width_first_ugens = []\n        self._rewrite_in_progress = False\n", ""),
+                ('sc3/synth/synthdef.py', "        obj._available = []\n        obj._width_first_ugens = []\n        obj._rewrite_in_progress = False\n", ""),
+                ('sc3/synth/synthdef.py', "    def __init__(self, name, func, rates=None, prepend=None,", "    _available = []\n    _width_first_ugens = []\n    _rewrite_in_progress = False\n\n    def __init__(self, name, func, rates=None, prepend=None,")]),
     dict(rule='C20.ctx', name='reset dropped in the handler', file='sc3/synth/synthdef.py',
          old="            except Exception:\n                _libsc3.main._current_synthdef = None\n                raise", new="            except Exception:\n                raise"),
     dict(rule='C20.ctx', name='context set before taking the lock', file='sc3/synth/synthdef.py',
